@@ -28,6 +28,8 @@ mod vanish;
 #[cfg(not(feature = "force-inprocess"))]
 mod shm;
 #[cfg(not(feature = "force-inprocess"))]
+mod oneshot;
+#[cfg(not(feature = "force-inprocess"))]
 mod wire;
 
 fn main() {
@@ -68,6 +70,10 @@ fn main() {
         "shm" => shm::run(&args[2..]),
         #[cfg(not(feature = "force-inprocess"))]
         "shmchild" => shm::child(&args[2..]),
+        #[cfg(not(feature = "force-inprocess"))]
+        "oneshot" => oneshot::run(&args[2..]),
+        #[cfg(not(feature = "force-inprocess"))]
+        "oneshotchild" => oneshot::child(&args[2..]),
         s => {
             eprintln!("unknown scenario {}", s);
             std::process::exit(2);
